@@ -298,6 +298,12 @@ func (g *genSite) build(nSeeds, nHubs int) {
 		}
 		// anchors that must not become requests
 		anchors = append(anchors, "ftp://f.example/file", "http://archive.org/web/", "mailto:a@b.example", "#top")
+		// a URL text with a malformed percent-escape: the crawler's aggressive link regex queues such
+		// texts unvalidated; the queue consumer cannot parse the row and finishes it without a fetch -
+		// which must not affect the rows that follow it (the first hub's row precedes the later hubs' rows)
+		if hb == 0 {
+			anchors = append(anchors, "http://"+h+"/broken%zzescape/x.html")
+		}
 		uri := fmt.Sprintf("/hub%d.html", hb)
 		g.o.set(h, uri, &route{Status: 200, Headers: map[string]string{"Content-Type": "text/html"}, Body: htmlPage("hub", nil, anchors), Tag: "hub"})
 		g.Hubs = append(g.Hubs, "http://"+h+uri)
